@@ -18,9 +18,9 @@ const ModulePath = "example.com/synth"
 type TKind int
 
 const (
-	TBasic   TKind = iota // int, string, ...
-	TRef                  // reference to a declared type (possibly instantiated)
-	TStd                  // standard library named type: time.Time, sql.NullInt64, ...
+	TBasic TKind = iota // int, string, ...
+	TRef                // reference to a declared type (possibly instantiated)
+	TStd                // standard library named type: time.Time, sql.NullInt64, ...
 	TSlice
 	TArray
 	TMap
